@@ -509,7 +509,19 @@ class ModelQueryGen:
             sql += f' GROUP BY {self.col(self.pick(items))}'
         if self.chance(1, 6) and ('X' not in kinds or self.chance(1, 4)):
             self.tags.add('order')
-            sql += f' ORDER BY {self.col(self.pick(items))}{self.pick(["", " DESC"])}'
+            oc = self.col(self.pick(items))
+            form = self.pick(['col', 'col', 'col', 'position', 'function', 'arith', 'two'])
+            if form == 'position':
+                oc = '1'
+            elif form == 'function':
+                oc = f'abs({oc})'
+            elif form == 'arith':
+                oc = f'{oc} + {self.col(self.pick(items))}'
+            elif form == 'two':
+                oc = f'{oc}, {self.col(self.pick(items))} DESC'
+            if form != 'col':
+                self.tags.add('order:' + form)
+            sql += f' ORDER BY {oc}{self.pick(["", " DESC"])}'
         if self.chance(1, 4):
             self.tags.add('limit')
             sql += f' LIMIT {self.pick([1, 2, 10])}'
